@@ -223,6 +223,9 @@ func (g *gen) schema(depth int, iface bool) *Schema {
 		for e.Kind == "num" && e.NK == "U8" { // []uint8 is the bytes form
 			e = g.leaf()
 		}
+		if iface && len(g.alts) > 0 && g.r.Chance(1, 6) {
+			e = &Schema{Kind: "iface", Alts: g.alts}
+		}
 		return &Schema{Kind: "slice", Elem: e}
 	case 4:
 		e := g.schema(depth+1, iface)
@@ -231,7 +234,11 @@ func (g *gen) schema(depth int, iface bool) *Schema {
 		}
 		return &Schema{Kind: "arr", N: g.r.Intn(4), Elem: e}
 	case 5, 6:
-		return &Schema{Kind: "map", Key: g.keySchema(), Elem: g.schema(depth+1, iface)}
+		m := &Schema{Kind: "map", Key: g.keySchema(), Elem: g.schema(depth+1, iface)}
+		if iface && len(g.alts) > 0 && g.r.Chance(1, 4) {
+			m.Elem = &Schema{Kind: "iface", Alts: g.alts} // interface-typed map values
+		}
+		return m
 	}
 	if iface {
 		return &Schema{Kind: "iface", Alts: g.alts}
@@ -661,6 +668,37 @@ func (h *harness) directed() {
 				}
 			}
 		}
+	}
+	// collections with interface-typed elements: map[string]any, []any, [1]any (the decoder looks up the type settings of
+	// the freshly created nil element before decoding it); non-empty documents, right and wrong shapes
+	{
+		alt := &Schema{Kind: "struct", Code: 7, CodeU8: true, Fields: []*Field{{Name: "Q", S: &Schema{Kind: "num", NK: "U16"}}}}
+		alts := []*Schema{alt}
+		ifc := func() *Schema { return &Schema{Kind: "iface", Alts: alts} }
+		ts := &Schema{Kind: "struct", Code: -1, Fields: []*Field{
+			{Name: "M", S: &Schema{Kind: "map", Key: &Schema{Kind: "str"}, Elem: ifc()}},
+			{Name: "S", S: &Schema{Kind: "slice", Elem: ifc()}},
+			{Name: "A", S: &Schema{Kind: "arr", N: 1, Elem: ifc()}},
+			{Name: "K", S: &Schema{Kind: "map", Key: &Schema{Kind: "u64"}, Elem: ifc()}},
+		}}
+		tapi := setup(ts)
+		for _, doc := range []string{
+			`{"m":{"k":{"type":7,"q":1}},"s":[{"type":7,"q":2}],"a":[{"type":7,"q":3}],"k":{"5":{"type":7,"q":4}}}`,
+			`{"m":{"k":5},"s":[],"a":[{"type":7,"q":3}],"k":{}}`,
+			`{"m":{"k":{"type":9,"q":1}},"s":[],"a":[{"type":7,"q":3}],"k":{}}`,
+			`{"m":{"k":null},"s":[],"a":[{"type":7,"q":3}],"k":{}}`,
+			`{"m":{"k":{}},"s":[],"a":[{"type":7,"q":3}],"k":{}}`,
+			`{"m":{},"s":[null],"a":[{"type":7,"q":3}],"k":{}}`,
+			`{"m":{},"s":[],"a":[5],"k":{}}`,
+			`{"m":{},"s":[],"a":[{"type":7,"q":3}],"k":{"x":{"type":7,"q":4}}}`,
+			`{"m":{},"s":[],"a":[{"type":7,"q":3}],"k":{"5":"x"}}`,
+			`{"m":{"a":{"type":7,"q":1},"b":{"type":7,"q":2}},"s":[{"type":7,"q":2},{"type":7,"q":5}],"a":[{"type":7,"q":3}],"k":{}}`,
+		} {
+			h.decCase(ts, tapi, lit(doc), false, "directed-iface-elements")
+		}
+		p := reflect.New(ts.T)
+		genValue(vx.NewRng(11), ts, p.Elem())
+		h.encCase(nil, ts, tapi, p, false, false, "directed-iface-elements")
 	}
 	// fixed 18e6a53: `serix:"in,inlined"` is written as a nested object under "in" but was decoded from the enclosing
 	// object (missing map entry); embedded and named, by value and by pointer; then the flat forms
